@@ -1553,12 +1553,32 @@ static int parse_loop_header(struct scanner_s *scanner, cif_container_tp *contai
                 u_strncpy((*next_namep)->string, token_value, token_length);
                 (*next_namep)->string[token_length] = 0;
 
-                /* check for data name duplication */
-                switch (result = ((container == NULL) ? CIF_NOSUCH_ITEM
-                            : cif_container_get_item_loop(container, (*next_namep)->string, NULL))) {
+                /* check for data name validity and duplication */
+                {
+                    UChar *name_norm = NULL;
+
+                    result = cif_normalize_item_name((*next_namep)->string, -1, &name_norm, CIF_INVALID_ITEMNAME);
+                    if (result == CIF_OK) {
+                        free(name_norm);
+                        result = ((container == NULL) ? CIF_NOSUCH_ITEM
+                                : cif_container_get_item_loop(container, (*next_namep)->string, NULL));
+                    }
+                }
+                switch (result) {
                     case CIF_NOSUCH_ITEM:
                         /* the expected case */
                         break;
+                    case CIF_INVALID_ITEMNAME:
+                        /* error: invalid item name */
+                        if ((result = scanner->error_callback(CIF_INVALID_ITEMNAME, scanner->line,
+                                scanner->column - TVALUE_LENGTH(scanner), TVALUE_START(scanner),
+                                TVALUE_LENGTH(scanner), scanner->user_data)) == CIF_OK) {
+                            /* recover as for a duplicate name: ignore the name and its values in the loop body */
+                            free((*next_namep)->string);
+                            (*next_namep)->string = NULL;
+                            break;
+                        }
+                        return result;
                     case CIF_OK:
                         /* error: duplicate item name */
                         if ((result = scanner->error_callback(CIF_DUP_ITEMNAME, scanner->line,
